@@ -142,6 +142,9 @@ def run(ctx):
         if ".waiting_tx_count" in fields:
             l = lin(fields[".waiting_tx_count"][0][1])
             R.ob(l.k == 1 and len(l.terms) == 1, "WIRE", g.where(), "WIRE|counters|tx-count", "waiting_tx_count is not incremented by exactly one")
+        import wire as _W6
+        for fk in list(fields):
+            fields[fk] = [(bi, _W6.resolve(F, g, t)) for bi, t in fields[fk]]      # captured values: as computed by the creating function
         if ".gas_used" in fields:
             R.ob(any(mentions_deep(F, t, "gas_used") and (mentions(t, "checked_add") or mentions(t, "saturating_add")) for _, t in fields[".gas_used"]),
                  "WIRE", g.where(), "WIRE|counters|gas", "gas_used is not accumulated from the execution output's gas_used")
